@@ -228,6 +228,6 @@ PROPS["C08"] = dict(
 HOOK_COMMITS = []
 NOT_APPLICABLE = [
  dict(property_id="C05", reason="slice lengths go through ceil(float) and an 8-way sign/None case split on run-time values; no sound static argument in reach, and weaker structural proxies are not necessary conditions (DESIGN §3 C05)"),
- dict(property_id="C16", reason="value-level sums over run-time contraction lengths through 5-8 stage view pipelines; nothing structural that is also necessary (DESIGN §3 C16)"),
- dict(property_id="C17", reason="floating-point results of long view pipelines with tolerance; nothing structural that is also necessary (DESIGN §3 C17)"),
+ dict(property_id="C16", reason="value-level sums over run-time contraction lengths through 5-8 stage view pipelines; nothing structural that is also necessary (DESIGN §3 C16). Tried: E1 on index::shape_matmul discharges only operands of rank <= 2 (batch axes go through a run-time-length split into hybrid containers); those obligations are kept under C15 (argument check), not claimed as C16"),
+ dict(property_id="C17", reason="floating-point results of long view pipelines with tolerance; nothing structural that is also necessary (DESIGN §3 C17). Tried: the pooling output-shape formula is computed in float (ceil/floor of a float quotient), out of reach of E1; the pad stage (index::pad, view::pad) is integer-only and is proved under C02/C15"),
 ]
